@@ -4,16 +4,17 @@ go 1.22
 
 require (
 	github.com/bolkedebruin/rdpgw v0.0.0
+	github.com/coreos/go-oidc/v3 v3.9.0
 	github.com/prometheus/client_golang v1.19.0
 	github.com/prometheus/client_model v0.6.0
 	golang.org/x/crypto v0.32.0
+	golang.org/x/oauth2 v0.18.0
 )
 
 require (
 	github.com/beorn7/perks v1.0.1 // indirect
 	github.com/bolkedebruin/gokrb5/v8 v8.5.0 // indirect
 	github.com/cespare/xxhash/v2 v2.2.0 // indirect
-	github.com/coreos/go-oidc/v3 v3.9.0 // indirect
 	github.com/fsnotify/fsnotify v1.7.0 // indirect
 	github.com/go-jose/go-jose/v3 v3.0.4 // indirect
 	github.com/go-jose/go-jose/v4 v4.0.5 // indirect
@@ -35,7 +36,6 @@ require (
 	github.com/prometheus/common v0.50.0 // indirect
 	github.com/prometheus/procfs v0.13.0 // indirect
 	golang.org/x/net v0.23.0 // indirect
-	golang.org/x/oauth2 v0.18.0 // indirect
 	golang.org/x/sys v0.29.0 // indirect
 	golang.org/x/text v0.21.0 // indirect
 	google.golang.org/appengine v1.6.8 // indirect
